@@ -31,7 +31,7 @@ pub const FAULT_KINDS: &[FaultKind] = &[
 
 pub fn tolerances() -> Vec<Option<u64>> {
     let mut v: Vec<Option<u64>> = vec![None];
-    for t in [0.0, 1e-14, 1e-10, 1e-6, 1e-3, 1.0, 1e3, f64::INFINITY, f64::NAN, -1.0] {
+    for t in [0.0, -0.0, 5e-324, 1e-14, 1e-10, 1e-6, 1e-3, 1.0, 1e3, f64::MAX, f64::INFINITY, f64::NAN, -1.0, f64::NEG_INFINITY] {
         v.push(Some(f64::to_bits(t)));
     }
     v
